@@ -61,6 +61,7 @@ enum BClass {
   None,
   Ok,
   Unparsable,
+  BadUtf8,
   EmptyList,
   BadElem,
   NoDocs,
@@ -72,6 +73,7 @@ impl BClass {
       BClass::None => "BNone",
       BClass::Ok => "BOk",
       BClass::Unparsable => "BUnparsable",
+      BClass::BadUtf8 => "BBadUtf8",
       BClass::EmptyList => "BEmptyList",
       BClass::BadElem => "BBadElem",
       BClass::NoDocs => "BNoDocs",
@@ -205,9 +207,11 @@ impl<'a> Oracle<'a> {
         }
       }
       "/add" => {
-        let Ok(text) = std::str::from_utf8(body) else { return (BClass::Unparsable, Core::Ok) };
+        // the handler reads line by line (read_line): a line that is not valid UTF-8 fails the
+        // read when it is reached, after earlier lines have been parsed and checked
         let mut docs = Vec::new();
-        for line in text.split_inclusive('\n') {
+        for raw in body.split_inclusive(|b| *b == b'\n') {
+          let Ok(line) = std::str::from_utf8(raw) else { return (BClass::BadUtf8, Core::Ok) };
           let t = line.trim();
           if t.is_empty() {
             continue;
